@@ -260,12 +260,14 @@ def law_mixed(ch):
 
     spec = ch.draw(gen.array_specs(
         ferm=False, syms=ALLSYMS, min_ndim=2, max_ndim=4, max_size=2,
-        dtype="mixed", allow_empty=False), "x")
+        dtype="mixed", allow_empty=False,
+        data=ch.choice(["int", "gauss"], "data")), "x")
     x = gen.build(spec)
-    kinds = {np.asarray(b).dtype.kind for b in x.blocks.values()}
-    if len(kinds) < 2:
-        # build the mixture through the library instead: real + complex
+    dts = {np.asarray(b).dtype for b in x.blocks.values()}
+    if len(dts) < 2:
         return
+    promoted = str(np.result_type(*dts))
+    exact = spec["data"] == "int"
     dx = D.dense_of(x)
     nd = x.ndim
     perm = list(ch.perm(nd, "perm"))
@@ -296,7 +298,10 @@ def law_mixed(ch):
             want = np.tensordot(dx, np.conj(dx), axes=(perm[:k], perm[:k]))
             rest = [a for a in range(nd) if a not in perm[:k]]
             ref = [dict(x.indices[a].chargemap) for a in rest] * 2
-            dense_equal(D.dense_of(r, ref=ref), want, "mixed:tensordot:value")
+            dense_equal(D.dense_of(r, ref=ref), want, "mixed:tensordot:value",
+                        exact=exact, K=64,
+                        scale=float(np.abs(want).max() or 1)
+                        if want.size else 1.0)
         except np.exceptions.ComplexWarning as w:
             raise Discrepancy("mixed:imaginary-part-discarded", str(w))
     ch.mark_nontrivial(True)
